@@ -457,7 +457,7 @@ func (c *fsClient) Inline(callee *ssa.Function) bool {
 	return true
 }
 
-func (c *fsClient) OnStore(x *Exec, st *State, fr *Frame, pos token.Pos, addr, val *Term) {
+func (c *fsClient) OnStore(x *Exec, st *State, fr *Frame, pos token.Pos, addr, val, old *Term) {
 	g := c.g(st)
 	// RELOAD-COMPLETE bookkeeping: a list of readers grows by a reader for the drawn name
 	if val.Op == "list" && len(x.marks) > 0 {
